@@ -21,6 +21,9 @@ func init() {
 				n = 4000
 			}
 			var out []Case
+			for _, cp := range renderCorpus() {
+				out = append(out, runC18(cp))
+			}
 			for i := 0; i < n; i++ {
 				cfg := p1Cfg{MaxStmts: 6 + i*8/n, Keys: p1Keys, Trace: i%2 == 0, Presenters: true}
 				p := genProgFields(r, cfg)
